@@ -1,0 +1,66 @@
+//go:build verif
+
+package app
+
+// Add-only hooks for the verification harness of property C03 (/verif). Thin exported wrappers,
+// no change of behaviour. Only compiled with -tags verif.
+
+import (
+	"io/fs"
+
+	m "github.com/Eyevinn/dash-mpd/mpd"
+	"github.com/Eyevinn/mp4ff/mp4"
+)
+
+// VerifC03Recipe mirrors audioRecipe without the representation pointer.
+type VerifC03Recipe struct {
+	SegNr               uint32
+	StartTime           uint64
+	EndTime             uint64
+	AudioInStart        uint64
+	AudioInEnd          uint64
+	AudioInEndAfterWrap uint64
+}
+
+// VerifC03CalcAudioTimeFromRef calls calcAudioTimeFromRef.
+func VerifC03CalcAudioTimeFromRef(refTime, refTimescale, audioFrameDur, audioTimescale uint64) uint64 {
+	return calcAudioTimeFromRef(refTime, refTimescale, audioFrameDur, audioTimescale)
+}
+
+// VerifC03CalcAudioSegRecipe calls calcAudioSegRecipe.
+func VerifC03CalcAudioSegRecipe(refNr uint32, refStart, refEnd, refTotalDur, refTimescale uint64, rd *RepData) VerifC03Recipe {
+	r := calcAudioSegRecipe(refNr, refStart, refEnd, refTotalDur, refTimescale, rd)
+	return VerifC03Recipe{r.segNr, r.startTime, r.endTime, r.audioInStart, r.audioInEnd, r.audioInEndAfterWrap}
+}
+
+// VerifC03CreateAudioSeg calls createAudioSeg for a (possibly synthetic) representation whose
+// segments are read from vodFS under assetPath.
+func VerifC03CreateAudioSeg(vodFS fs.FS, assetPath string, rd *RepData, r VerifC03Recipe) (*mp4.MediaSegment, error) {
+	a := &asset{AssetPath: assetPath}
+	rec := audioRecipe{rd, r.SegNr, r.StartTime, r.EndTime, r.AudioInStart, r.AudioInEnd, r.AudioInEndAfterWrap}
+	return createAudioSeg(vodFS, a, rec)
+}
+
+// VerifC03AudioTimeline calls generateTimelineEntriesFromRef on a synthetic asset with one
+// representation and a reference timeline given as (t of first entry, list of (d, r)).
+// The result is the list of (t or -1, d, r) of the produced entries, and startNr.
+func VerifC03AudioTimeline(rd *RepData, refTimescale uint32, refStartNr int, refT uint64, refDR [][2]uint64) (out [][3]int64, startNr int) {
+	a := &asset{Reps: map[string]*RepData{rd.ID: rd}}
+	refSE := segEntries{mediaTimescale: refTimescale, startNr: refStartNr}
+	for i, dr := range refDR {
+		s := &m.S{D: dr[0], R: int(dr[1])}
+		if i == 0 {
+			s.T = Ptr(refT)
+		}
+		refSE.entries = append(refSE.entries, s)
+	}
+	se := a.generateTimelineEntriesFromRef(refSE, rd.ID)
+	for _, e := range se.entries {
+		t := int64(-1)
+		if e.T != nil {
+			t = int64(*e.T)
+		}
+		out = append(out, [3]int64{t, int64(e.D), int64(e.R)})
+	}
+	return out, se.startNr
+}
